@@ -196,23 +196,43 @@ def _kw_loop(m: MethodNF, ctx) -> KwMatch | None:
         for n, c in nf.iter_nodes(m.tree):
             if n[0] == "sink" and c == ctx:
                 kterm = n[1].get("keyword")
-                if kterm is not None and kterm[0] == "call" and kterm[1] == "next" and len(kterm[2]) == 2 and is_const(kterm[2][1], None):
-                    g = kterm[2][0]
-                    o = I.obj(g)
-                    guards = nf.guards_in_ctx(ctx)
-                    if isinstance(o, HList) and len(o.segs) == 1 and o.segs[0][0] == "loop" and o.segs[0][2] == [("e", ("elem", o.segs[0][1]))] \
-                            and (("cmp", "Is", kterm, NONE), False) in guards:
-                        inner = o.segs[0][1]
-                        ii = I.loops[inner]
-                        conds = ii.get("conds") or ()
-                        if len(conds) != 1:
-                            return None
-                        r = KwMatch()
-                        r.loop = inner
-                        r.keyword = kterm
-                        r.test = nf.subst(conds[0], {("elem", inner): KW})
-                        r.lists = _kw_parts(m, ii.get("iter"))
-                        return r
+                guards = nf.guards_in_ctx(ctx)
+                if kterm is None:
+                    continue
+                # (a) k = next((k for k in KWS if TEST(k)), None); if k is None: return False
+                if kterm[0] == "firstof" and kterm[2] == ("elem", kterm[1]) and kterm[3] == NONE and (("cmp", "Is", kterm, NONE), False) in guards:
+                    inner = kterm[1]
+                    ii = I.loops[inner]
+                    conds = ii.get("conds") or ()
+                    if len(conds) != 1:
+                        return None
+                    r = KwMatch()
+                    r.loop = inner
+                    r.keyword = kterm
+                    r.test = nf.subst(conds[0], {("elem", inner): KW})
+                    r.lists = _kw_parts(m, ii.get("iter"))
+                    return r
+                # (b) a search helper: ``for k in KWS: if TEST(k): return k`` / ``return None``; ``if k is None: return False``
+                if kterm[0] == "cond" and kterm[1][0] == "loopret" and kterm[2] == ("elem", kterm[1][1]) and kterm[3] == NONE and nf.guards_imply(guards, kterm[1]):
+                    inner = kterm[1][1]
+                    ii = I.loops[inner]
+                    node = next((x for x, _ in nf.iter_nodes(m.tree) if x[0] == "loop" and x[1] == inner), None)
+                    if node is None or ii.get("conds") or ii.get("kind") != "for":
+                        return None
+                    body = list(nf.iter_nodes(node[2]))
+                    rets = [(x, cc) for x, cc in body if x[0] == "return" and not any(y[0] == "call" for y in cc)]
+                    effects = [x for x, cc in body if x[0] in ("mutate", "setattr", "setitem", "sink", "break", "raise", "yield")]
+                    if len(rets) != 1 or effects or rets[0][0][1] != ("elem", inner):
+                        return None
+                    gs = nf.guards_in_ctx(rets[0][1])
+                    if len(gs) != 1 or not gs[0][1]:
+                        return None
+                    r = KwMatch()
+                    r.loop = inner
+                    r.keyword = kterm
+                    r.test = nf.subst(gs[0][0], {("elem", inner): KW})
+                    r.lists = _kw_parts(m, ii.get("iter"))
+                    return r
         return None
     lid = loops[-1]
     info = I.loops[lid]
@@ -685,6 +705,8 @@ def rule_other_text(rep: Report, rid="C13.text", cls_q=MQ, openers=('"""', "```"
                     for o, at in eq_atoms.items():
                         assign[at] = (o == which)
                     got = resolve_conds(t, assign)
+                    if which is not None:
+                        got = nf.subst(got, {active: const(which)})      # in this case the active delimiter is that constant
                     base = trimmed if (ltv or gtv) else ("slice", raw, ind, NONE, NONE)
                     want = base
                     if which is not None:
